@@ -258,7 +258,11 @@ def main(argv):
   # ---- violations
   violations = []
   # Verus failures not known
+  seen_v = set()
   for f in new_fail:
+    if f["name"] in seen_v:
+      continue
+    seen_v.add(f["name"])
     payload = {"property": pid, "obligation": f["name"], "function": f.get("fn"), "unit": f["unit"], "backend": "verus/z3",
                "verus_message": f["msg"], "clause": f.get("clause"), "verifier_output": f.get("rendered"), "harness": None, "values": None}
     tail = " no-failing-input-found"
